@@ -314,7 +314,7 @@ var mutants = ev.NewCheck("C05", "mutations",
 	genMut, runMut)
 
 var boundary = ev.NewCheck("C05", "boundary-inputs",
-	"hand written boundary inputs (ntrks 0 with a track chunk, stray data/system bytes where a status is required, garbage SMPTE bytes, format 3, declared lengths 2^25..2^28 without payload, cut-off channel messages, over-long VLQ, tempo 0, huge alien chunk length; declared payload lengths 2^21..2^28-1 with 65535..200000 real bytes behind them) and the literal files of the repository's tests; same oracle as 'mutations'",
+	"hand written boundary inputs (ntrks 0 with a track chunk, stray data/system bytes where a status is required, garbage SMPTE bytes, format 3, declared lengths 2^25..2^28 without payload, cut-off channel messages, over-long VLQ, tempo 0, huge alien chunk length; declared payload lengths 2^21..2^28-1 with 65535..200000 real bytes behind them; 32767..65535 minimal track chunks really present; 100..3000 track chunks each declaring 2^20..2^32-1 bytes but holding four) and the literal files of the repository's tests; same oracle as 'mutations'",
 	nil, runMut)
 
 func TestPropMutations(t *testing.T) { mutants.Rapid(t, 6000, 30000) }
@@ -380,6 +380,27 @@ func TestEnumBoundaryInputs(t *testing.T) {
 				b := cat(hdr(0, 1, 96), []byte("MTrk"), binary.BigEndian.AppendUint32(nil, uint32(len(body))), body)
 				inputs[fmt.Sprintf("declared-%d-%s-with-%d-real-bytes", declared, kind.name, real)] = b
 			}
+		}
+	}
+	// very many track chunks really present (16-bit counters), and many chunks that declare far
+	// more than they hold (memory reserved per declared length adds up)
+	for _, n := range []int{32767, 32768, 32769, 40000, 65535} {
+		b := hdr(1, uint16(n), 96)
+		one := trk(0, 0xFF, 0x2F, 0)
+		for i := 0; i < n; i++ {
+			b = append(b, one...)
+		}
+		inputs[fmt.Sprintf("%d-minimal-tracks", n)] = b
+	}
+	for _, n := range []int{100, 400, 800, 3000} {
+		for _, declared := range []uint32{1 << 20, 1 << 24, 0x7FFFFFFF, 0xFFFFFFFF} {
+			b := hdr(1, uint16(n), 96)
+			for i := 0; i < n; i++ {
+				b = append(b, "MTrk"...)
+				b = binary.BigEndian.AppendUint32(b, declared)
+				b = append(b, 0, 0xFF, 0x2F, 0)
+			}
+			inputs[fmt.Sprintf("%d-tracks-declaring-%d-bytes-each", n, declared)] = b
 		}
 	}
 	var lit map[string]ev.Hex
